@@ -828,6 +828,28 @@ def tool_oracle(S):
     return bad
 
 
+# ---------------- format detection matrix (props/C15/detect.py) -------------
+def _load_detect():
+    import importlib.util
+    sp = importlib.util.spec_from_file_location("c15_detect", os.path.join(HERE, "detect.py"))
+    m = importlib.util.module_from_spec(sp)
+    sp.loader.exec_module(m)
+    return m
+
+
+def detect_oracle(S):
+    """header flavour x arrival x first member names that begin with a codec magic: same image (or same refusal)
+    as the plain POSIX archive of the same entries."""
+    D = _load_detect()
+    rnd = random.Random(S.ctx.seed * 7919 + 15)
+    bad, stats = D.detect_matrix(S, compress_member, tar2sqfs_image, rnd, b64, only=S.replay_detect)
+    S.ctx.coverage["evaluations"] = S.ctx.coverage.get("evaluations", 0) + stats["cells"] + stats["reference_runs"]
+    S.ctx.coverage["distinct_nontrivial"] = S.ctx.coverage.get("distinct_nontrivial", 0) + stats["compared"]
+    S.ctx.coverage.setdefault("distribution", {})["format_detection_matrix"] = dict(
+        stats, flavours=D.FLAVOURS, arrivals=D.ARRIVALS, first_names=[t for t, _ in D.MAGIC_NAMES])
+    return bad
+
+
 # ---------------- main ------------------------------------------------------
 def load_corpus():
     p = os.path.join(HERE, "corpus.txt")
@@ -878,12 +900,16 @@ def run(ctx):
     S.replay_lines = None
     S.replay_real = None
     S.replay_tool = None
-    do_toy = do_real = do_tool = True
+    S.replay_detect = None
+    do_toy = do_real = do_tool = do_detect = True
     if ctx.replay:
         rp = json.load(open(ctx.replay))
         k = rp.get("kind", "")
-        do_toy = do_real = do_tool = False
-        if k.startswith("toy") and rp.get("line"):
+        do_toy = do_real = do_tool = do_detect = False
+        if k == "tool-detect":
+            S.replay_detect = rp
+            do_detect = True
+        elif k.startswith("toy") and rp.get("line"):
             S.replay_lines = [rp["line"]]
             do_toy = True
         elif k.startswith("real") and rp.get("line"):
@@ -911,11 +937,12 @@ def run(ctx):
             S.replay_tool = [(files, tar, "replay")]
             do_tool = True
         else:
-            do_toy = do_real = do_tool = True
+            do_toy = do_real = do_tool = do_detect = True
 
     parts = os.environ.get("C15_PARTS")
     if parts:
         do_toy, do_real, do_tool = ("toy" in parts and do_toy), ("real" in parts and do_real), ("tool" in parts and do_tool)
+        do_detect = "detect" in parts and do_detect
     tie_bad, prop_bad = ([], [])
     if do_toy:
         tie_bad, prop_bad = toy_tie(S)
@@ -928,6 +955,9 @@ def run(ctx):
     ctx.log("real-codec component oracle done: %d failures" % len(real_bad))
     tool_bad = tool_oracle(S) if do_tool else []
     ctx.log("tool oracle done: %d failures" % len(tool_bad))
+    detect_bad = detect_oracle(S) if do_detect else []
+    ctx.log("format detection matrix done: %d failures" % len(detect_bad))
+    tool_bad = detect_bad + tool_bad
 
     seen = set()
     for l, (sig, why), rc, rm in prop_bad:
@@ -967,7 +997,10 @@ def run(ctx):
         "k*BUFSZ+{-512..511}, block size 1..255, greedy/final-run/throttle knobs; magic/tar_probe cases around every table entry and "
         "offsets 257/769.  real codecs: same harness with the real libraries, compressed by Python zlib/lzma/bz2 + libzstd at random levels, "
         "0-2 member splits, 45%% mutated.  tools: archives small / ~BUFSZ / k*BUFSZ with incompressible tail; single, split (inside headers), "
-        "chunked pipe, cut at header boundary (flush point), random cuts, last byte, bit flips, trailing garbage; sqfs2tar -c X vs reference. "
+        "chunked pipe, cut at header boundary (flush point), random cuts, last byte, bit flips, trailing garbage; sqfs2tar -c X vs reference.  "
+        "format detection matrix: header flavour {v7, POSIX, GNU, POSIX behind a zero record} x arrival {plain,gzip,xz,zstd,bzip2} x first member "
+        "name {neutral, 5 names beginning with a codec magic, 3 near misses} = 180 cells against the plain POSIX archive of the same entries "
+        "(5 v7/plain/magic cells are ambiguous by construction and not compared). "
         "non-trivial = non-empty plain data / magic hit" % ctx.seed)
 
 
